@@ -237,7 +237,7 @@ def write_image(bw, rng, width, height, role, inject=None, groups_max=None, zero
         lit = pick(0, green_max, rng.choice([1, 2, 4, 14, 60, 200]))
         lens_syms = [256 + s for s in pick(0, 23, rng.choice([1, 2, 6, 24]))] if rng.random() < 0.75 else []
         csyms = [280 + s for s in pick(0, cache_len - 1, rng.choice([1, 3, 10]))] if cache_len and rng.random() < .7 else []
-        dsyms = pick(0, 39, rng.choice([1, 2, 5, 40]))
+        dsyms = V.with_13(rng, pick(0, 39, rng.choice([1, 2, 5, 40])))
         rs = [0] if role == "meta" else pick(0, 255, rng.choice([1, 1, 2, 5, 40, 256]))
         if role == "meta" and rng.random() < 0.05:
             rs = [0, 1]                                  # group indices above 255
@@ -326,8 +326,7 @@ def write_image(bw, rng, width, height, role, inject=None, groups_max=None, zero
                         continue
                     le = min(le, n - idx - base)
                     ln = base + le
-                ds = rng.choice(dsyms)
-                de = rng.getrandbits(V.lz77_extra_bits(ds)) if V.lz77_extra_bits(ds) else 0
+                ds, de = V.pick_dist(rng, dsyms)
                 dist = V.dist_of(V.lz77_value(ds, de), width)
                 if dist > idx:
                     base = V.dist_of(V.lz77_value(ds, 0), width) if V.lz77_value(ds, 0) > 120 else None
